@@ -6,6 +6,8 @@ package main
 //   gosym replay -id C12 -file F         replay a counterexample natively
 
 import (
+	"runtime/debug"
+	"runtime/pprof"
 	"encoding/json"
 	"flag"
 	"fmt"
@@ -77,6 +79,7 @@ func cmdCheck(args []string) int {
 	verbose := fs.Bool("v", false, "verbose")
 	noReplay := fs.Bool("no-replay", false, "skip native replay/validation (debugging)")
 	budget := fs.Duration("budget", 0, "per-harness wall-clock budget override")
+	cpuprof := fs.String("cpuprofile", "", "write a CPU profile")
 	profile := fs.Bool("profile", false, "count symbolic branch sites")
 	qto := fs.Int("qtimeout", 0, "primary solver per-query timeout in ms")
 	noIfConv := fs.Bool("no-ifconv", false, "disable if-conversion (debugging)")
@@ -86,6 +89,12 @@ func cmdCheck(args []string) int {
 		fmt.Fprintln(os.Stderr, "missing -id")
 		return 2
 	}
+	if *cpuprof != "" {
+		f, _ := os.Create(*cpuprof)
+		pprof.StartCPUProfile(f)
+		defer pprof.StopCPUProfile()
+	}
+	debug.SetGCPercent(400)
 	t0 := time.Now()
 	cfg := defaultConfig(*tier)
 	if *workers > 0 {
@@ -191,6 +200,8 @@ func (s *SolverStats) add(o SolverStats) {
 	s.Restarts += o.Restarts
 	s.Fallbacks += o.Fallbacks
 	s.Errors += o.Errors
+	s.SendTime += o.SendTime
+	s.ValueTime += o.ValueTime
 }
 
 type report struct {
